@@ -20,7 +20,7 @@ func init() {
 	register(&Prop{
 		ID:       "C05",
 		Category: "model_checking",
-		Rule: "streams: the short corpus, end-of-block at every bit offset, a stored block last, long encoder-made streams; gzip and zlib containers incl. two members read one by one; " +
+		Rule: "streams: the short corpus, end-of-block at every bit offset, a stored block last, long encoder-made streams, and the whole valid-stream grammar of C02 (sequence length 1) with an 8-byte suffix through bufio 16/4096/65536; gzip and zlib containers incl. two members read one by one; " +
 			"x suffix in {none, 1 byte, 8 bytes, 5000 bytes, a valid next block header} x source kind in {*bufio.Reader of 13 sizes given to NewReader, the same given to Reset, bytes.Reader, bytes.Buffer, strings.Reader, custom io.ByteReader} x Read policy {1, 4096, 1 MiB}; " +
 			"oracle: after io.EOF the bytes still readable from the source are exactly the suffix; non-trivial = the suffix is not empty",
 		Assumptions: []string{"the bytes left in the source are observed by draining the very object the Reader was given"},
@@ -98,7 +98,58 @@ func c05Harness(cfg *Cfg) func(x *mc.Exec) {
 	suffixes := []namedStream{{"none", nil}, {"1byte", []byte{0x42}}, {"8bytes", []byte("SUFFIX!!")}, {"5000bytes", bytes.Repeat([]byte("0123456789"), 500)}, {"next-header", nextHdr}}
 	pols := []env.ReadPolicy{env.PolicyAll, env.Policy4096, env.Policy1}
 	return func(x *mc.Exec) {
-		family := x.Choose(2, "family")
+		family := x.Choose(3, "family")
+		if family == 2 {
+			// the whole valid-stream grammar of C02 (end-of-block at every bit offset, every block type and code shape last)
+			// with an 8-byte suffix through the two ends of the bufio range and both constructors
+			stream, name, ok := g.choose(x, 1)
+			if !ok {
+				return
+			}
+			if !cfg.Thorough && (strings.HasPrefix(name, "match(") || strings.Contains(name, " tail2 ") || len(stream) > 20000) {
+				return // quick tier: the match sweep, the 64 KiB-prefix tail and long streams are left to the thorough tier
+			}
+			if _, err := stdFlate(stream); err != nil {
+				return
+			}
+			sk := []srcKind{{"bufio16", 16, false}, {"bufio16", 16, true}, {"bufio4096", 4096, false}, {"bufio65536", 65536, true}}[x.Choose(4, "source")]
+			pol := []env.ReadPolicy{env.PolicyAll, env.Policy7}[x.Choose(2, "read-policy")]
+			if len(stream) > 20000 && pol.Name != "1MiB" {
+				return
+			}
+			suf := []byte("SUFFIX!!")
+			x.NonTrivial()
+			data := append(append([]byte{}, stream...), suf...)
+			src, rest := sk.mkSource(data)
+			var r io.Reader
+			if pi := Guard(func() {
+				if sk.reset {
+					r = resetFastFlateOn(src)
+				} else {
+					r = newFastFlateOn(src)
+				}
+			}); pi != nil {
+				x.Fail("C05 panic "+pi.Site, "%s", pi)
+				return
+			}
+			o := drainReader(r, pol)
+			x.Note(o.FP)
+			desc := fmt.Sprintf("flate %s + 8-byte suffix via %s (reset=%v) policy=%s", name, sk.name, sk.reset, pol.Name)
+			if cls, msg := o.basicFaults(); cls != "" {
+				x.Fail("C05 "+cls, "%s: %s", desc, msg)
+				return
+			}
+			if o.Err != io.EOF {
+				x.Fail(fmt.Sprintf("C05 not-eof flate source=%s ctor=%s", sk.class(), ctorName(sk.reset)), "%s: ended with %v", desc, o.Err)
+				return
+			}
+			if left := rest(); !bytes.Equal(left, suf) {
+				x.Fail(mispKey(sk, "flate ctor="+ctorName(sk.reset)), "%s: %d bytes left in the source after io.EOF, want exactly the 8 suffix bytes", desc, len(left))
+				return
+			}
+			x.Outcome(desc)
+			return
+		}
 		sk := kinds[x.Choose(len(kinds), "source")]
 		suf := suffixes[x.Choose(len(suffixes), "suffix")]
 		pol := pols[x.Choose(len(pols), "read-policy")]
